@@ -86,8 +86,10 @@ SPEC = dict(
         "cyclic entity definitions: either the recursion error or (with a SecurityManager) the limit error is accepted, whichever the parser reaches first; termination is enforced by the runner watchdog",
         "predefined entity references (&lt; ...) are outside the claim: WF/SG scanners count them against the limit, IG/DG do not (recorded as observation)",
         "real files, sockets and curl are replaced at the XMLPlatformUtils::fgFileMgr / fgNetAccessor seams; the interposed libc counters only prove that nothing bypasses them",
-        "KNOWN_DEFECTS (explicit lists in the two drivers, counted as known_defect:* instead of failing; --strict 1 turns them into violations): "
-        "sax-resolver-unresolved-systemid, schema-doctype-ignores-disable-default-entity-resolution, pe-expansion-not-counted, schema-document-expansions-not-limited",
+        "KNOWN_DEFECTS (explicit lists in the two drivers, counted as known_defect:* inside the big spaces; --strict 1 turns them into violations): "
+        "sax-resolver-unresolved-systemid, schema-doctype-ignores-disable-default-entity-resolution, pe-expansion-not-counted, schema-document-expansions-not-limited. "
+        "The run 'witness' executes one minimal witness per defect strictly and reports each one that still fails as a violation of kind defect:<id> "
+        "(matched by known_findings.json -> KNOWN-FINDING lines); a repaired defect makes its witness silent",
     ],
     coverage=_cov,
     runs=dict(
@@ -96,14 +98,16 @@ SPEC = dict(
                _ex("expand-general-n3", "--space", "ge", "--n", 3),
                _ex("expand-parameter-n3", "--space", "pe", "--n", 3),
                _ex("expand-schema-doc-n2", "--space", "schema", "--n", 2),
-               _ex("expand-predefined", "--space", "predef", "--refs", 4)],
+               _ex("expand-predefined", "--space", "predef", "--refs", 4),
+               _ax("witness", "--space", "witness")],
         thorough=[_ax("access-k1-full-product", "--space", "access-k1", "--k", 1, "--cfgset", "full"),
                   _ax("access-k2-gating192", "--space", "access-k2", "--k", 2, "--cfgset", "gating192"),
                   _ax("access-k2-resolver96", "--space", "access-k2r", "--k", 2, "--cfgset", "resolver96"),
                   _ex("expand-general-n4", "--space", "ge", "--n", 4),
                   _ex("expand-parameter-n3", "--space", "pe", "--n", 3),
                   _ex("expand-schema-doc-n3", "--space", "schema", "--n", 3),
-                  _ex("expand-predefined", "--space", "predef", "--refs", 6)],
+                  _ex("expand-predefined", "--space", "predef", "--refs", 6),
+                  _ax("witness", "--space", "witness")],
     ),
     manifest=dict(text="Every document that can be built from <= 2 external references of 12 kinds x 6 identifier forms is parsed under the full product of the access-controlling "
                        "switches with every resolver flavour; nothing outside the documented permitted set is opened, the resolver is consulted first with identifiers that denote the "
